@@ -8,6 +8,7 @@ revision, forced adoption on/off, and — because they are stated for an arbitra
 every store state any interleaving with third parties can produce.
 -/
 import Pko.Model.Phase
+import Pko.Lemmas.Watch
 
 namespace Pko.Props.C01
 open Pko.Kube Pko.Model.Phase
@@ -93,6 +94,7 @@ write at all and leaves the store as it is; unless the object belongs to a newer
 result is the adoption-refused error that is reported as CollisionDetected (or the plain error
 for an unparsable annotation). -/
 theorem reconcileObject_refused_no_write (cfg : Cfg) (ow : Owner) (prev : List Prev) (p : PObj) (w : World)
+    (hst : w.started p.kind = true)     -- the read went through (`Watch` was called: `started_watch`)
     (cur : Obj) (hseen : seen w (keyOf cfg ow p) = some cur)
     (hnc : isController cfg.st (ow.ref true) cur = false)
     (hnp : ¬ Permitted cfg.st ow cfg.force cur prev p.cp ∨ cur.rev = .garbage) :
@@ -103,7 +105,7 @@ theorem reconcileObject_refused_no_write (cfg : Cfg) (ow : Owner) (prev : List P
     (cur.rev ≠ .garbage → revNum cur.rev > ow.rev → r.2 matches .actual _) := by
   by_cases hg : cur.rev = .garbage
   · have := check_garbage cfg.st ow cfg.force cur prev p.cp hnc hg
-    simp only [reconcileObject, hseen, reconcileObjectWith, this]
+    simp only [reconcileObject_started cfg ow prev p w hst, hseen, reconcileObjectWith, this]
     simp [hg]
   · have hnp' : ¬ Permitted cfg.st ow cfg.force cur prev p.cp := by
       cases hnp with
@@ -111,13 +113,13 @@ theorem reconcileObject_refused_no_write (cfg : Cfg) (ow : Owner) (prev : List P
       | inr h => exact absurd h hg
     by_cases hgt : revNum cur.rev > ow.rev
     · have hs := (check_skips_iff cfg.st ow cfg.force cur prev p.cp hg).2 (Or.inr hgt)
-      simp only [reconcileObject, hseen, reconcileObjectWith, hs]
+      simp only [reconcileObject_started cfg ow prev p w hst, hseen, reconcileObjectWith, hs]
       simp [hnc, hg]; omega
     · have hle : revNum cur.rev ≤ ow.rev := by omega
       have hr := (check_refuses_iff cfg.st ow cfg.force cur prev p.cp hg).2 ⟨hnc, hle, hnp'⟩
       cases hr with
-      | inl h => simp only [reconcileObject, hseen, reconcileObjectWith, h]; simp [hg]; omega
-      | inr h => simp only [reconcileObject, hseen, reconcileObjectWith, h]; simp [hg]; omega
+      | inl h => simp only [reconcileObject_started cfg ow prev p w hst, hseen, reconcileObjectWith, h]; simp [hg]; omega
+      | inr h => simp only [reconcileObject_started cfg ow prev p w hst, hseen, reconcileObjectWith, h]; simp [hg]; omega
 
 /-- `SetControllerReference` makes the owner a controller (when it succeeds). -/
 theorem setControllerReference_isController (st : Strategy) (ow : Owner) (ns : String) (o o' : Obj)
@@ -151,6 +153,7 @@ theorem setControllerReference_isController (st : Strategy) (ow : Owner) (ns : S
 controller reference can be set, `reconcileObject` issues exactly one write — a server-side
 apply on the object's key. -/
 theorem reconcileObject_permitted_adopts (cfg : Cfg) (ow : Owner) (prev : List Prev) (p : PObj) (w : World)
+    (hst : w.started p.kind = true)     -- the read went through (`Watch` was called: `started_watch`)
     (cur : Obj) (hseen : seen w (keyOf cfg ow p) = some cur)
     (hnc : isController cfg.st (ow.ref true) cur = false) (hg : cur.rev ≠ .garbage)
     (hp : Permitted cfg.st ow cfg.force cur prev p.cp)
@@ -161,7 +164,7 @@ theorem reconcileObject_permitted_adopts (cfg : Cfg) (ow : Owner) (prev : List P
     ∃ created changed, r.1.events = w.events ++ [.apply (keyOf cfg ow p) created changed] := by
   have ha := (check_adopts_iff cfg.st ow cfg.force cur prev p.cp hg).2 ⟨hnc, hp⟩
   have hic := setControllerReference_isController _ _ _ _ _ hset
-  simp only [reconcileObject, hseen, reconcileObjectWith, ha]
+  simp only [reconcileObject_started cfg ow prev p w hst, hseen, reconcileObjectWith, ha]
   simp only [↓reduceIte, hset, hic]
   simp [World.apply, World.log, World.beforeWrite, World.tick, World.tick]
 
@@ -181,13 +184,13 @@ theorem reconcilePhaseObject_writes (cfg : Cfg) (ow : Owner) (prev : List Prev) 
     r.1.events = w.events ∨
     (WriteJustified cfg ow prev p w ∧ ow.paused = false ∧
       ∃ created changed, r.1.events = w.events ++ [.apply (keyOf cfg ow p) created changed]) := by
-  simp only [reconcilePhaseObject]
+  simp only [reconcilePhaseObject_eq]
   split
   · left; rfl
   · split
     · left; split <;> rfl
     · rename_i hp
-      simp only [reconcileObject, WriteJustified]
+      simp only [WriteJustified]
       cases hs : seen w (keyOf cfg ow p) with
       | none =>
         right
@@ -221,10 +224,12 @@ theorem reconcilePhaseObject_writes (cfg : Cfg) (ow : Owner) (prev : List Prev) 
                 right
                 simp [hic, World.apply, World.log, World.beforeWrite, World.tick, hg, hperm]
                 simpa using hp
-            · have h := reconcileObject_refused_no_write cfg ow prev p w cur hs hc' (Or.inl hperm)
+            · have h := reconcileObject_refused_no_write cfg ow prev p (w.watch ow p.kind)
+                (started_watch w ow p.kind) cur (by simpa using hs) hc' (Or.inl hperm)
               left
               have := h.1
-              simpa [reconcileObject, hs, reconcileObjectWith] using this
+              simpa [reconcileObject_started cfg ow prev p (w.watch ow p.kind) (started_watch w ow p.kind),
+                hs, reconcileObjectWith] using this
 
 /-- The worlds in which the objects of a phase are processed, in order (the pass stops at the
 first error). -/
